@@ -168,7 +168,7 @@ void c09_linear(vf::Tape & t, vf::Ctx & ctx)
   const int n = N > 0 ? N : 1 + static_cast<int>(t.choice(6));
   const int m = n + static_cast<int>(t.choice(6));
   const Opts o = gen_opts(t, ctx);
-  // A = Q1 diag(s) Q2' with singular values in [1e-1.5, 1e1.5] => cond <= 1e3
+  // A = Q1 diag(s) Q2' with singular values in [0.3, 3] => cond <= 10 ("unique well-conditioned minimiser")
   Eigen::MatrixXd G1(m, n), G2(n, n);
   for (int i = 0; i < m; ++i)
     for (int j = 0; j < n; ++j) G1(i, j) = t.gauss() + (i == j ? 0.5 : 0);
@@ -177,7 +177,7 @@ void c09_linear(vf::Tape & t, vf::Ctx & ctx)
   Eigen::MatrixXd Q1 = Eigen::HouseholderQR<Eigen::MatrixXd>(G1).householderQ() * Eigen::MatrixXd::Identity(m, n);
   Eigen::MatrixXd Q2 = Eigen::HouseholderQR<Eigen::MatrixXd>(G2).householderQ();
   Eigen::VectorXd s(n);
-  for (int j = 0; j < n; ++j) s(j) = t.lrange(0.0316, 31.6);
+  for (int j = 0; j < n; ++j) s(j) = t.lrange(0.3, 3.0);
   Eigen::MatrixXd A = Q1 * s.asDiagonal() * Q2.transpose();
   const auto degen = t.choice(5);
   bool unique = true;
@@ -186,8 +186,13 @@ void c09_linear(vf::Tape & t, vf::Ctx & ctx)
     unique = false;
     ctx.label("degenerate:zero-Jacobian-column");
   }
-  Eigen::VectorXd b(m), x0(n);
-  for (int i = 0; i < m; ++i) b(i) = t.sym(5.0);
+  // consistent data b = A x_true (+ light noise): Ftol is relative to the residual, so a large residual at the
+  // optimum would make "converged" compatible with a distance far above 1e-3 (not what the statement claims)
+  Eigen::VectorXd b(m), x0(n), xt(n);
+  for (int j = 0; j < n; ++j) xt(j) = t.sym(5.0);
+  const double noise = t.choice(3) == 0 ? 1e-3 : 0.0;
+  b = A * xt;
+  for (int i = 0; i < m; ++i) b(i) += noise * t.sym(1.0);
   for (int j = 0; j < n; ++j) x0(j) = t.choice(4) == 0 ? 0.0 : t.sym(5.0);
   // exact minimiser (long double normal equations; well conditioned)
   const orc::MatL AL = A.cast<LD>();
